@@ -69,6 +69,14 @@ def families(tier):
         for order in (['A', 'B'], ['B', 'A']):
             out.append(dict(prop='C15', family='c15.idle.inline_other_bus', id=f'c15/inline-h{hist}-n{int(nest)}-{who}-o{"".join(order)}', cfg=cfg, params=dict(ps='inline_xbus', when='paused', tmo=None),
                             scn=dict(buses={'A': {}, 'B': dict(hist=hist)}, order=order, handlers=hs, main=main, actors=actors, forwards=[], settle=2.0)))
+    # the bus has gone idle (flag set by a poll); wait_until_idle() is running its join / flag / re-check sequence while an external dispatcher lands a fresh event in between
+    for warm, n_actor, hshape in itertools.product(('await', 'ff_sleep'), (1, 2), ('pause', 'ret')):
+        hs = [dict(bus='A', pat='X', name='hxA', prog=[('pause',)] if hshape == 'pause' else [('ret', 0)])]
+        main = ([('disp', 'A', 'X0', 'await'), ('sleep', 0.25)] if warm == 'await' else [('disp', 'A', 'X0', 'ff'), ('sleep', 0.35)]) + [('idle', 'A'), ('pause',), ('idle', 'A')]
+        actor = [('sleep', 0.2), ('pause',), ('disp', 'A', 'X1', 'ff')] + ([('pause',), ('disp', 'A', 'X2', 'ff')] if n_actor == 2 else [])
+        out.append(dict(prop='C15', family='c15.idle.race_after_idle', id=f'c15/race-{warm}-a{n_actor}-{hshape}', cfg=dict(cfg, bound=3 if not deep else 4, cap=6000 if not deep else 60000),
+                        params=dict(ps='race', when='after', tmo=None),
+                        scn=dict(buses={'A': {}}, order=['A'], handlers=hs, main=main, actors=[actor], forwards=[], settle=2.0)))
     return out
 
 
